@@ -262,8 +262,10 @@ chk('C19', 'other',
     'eligible; plus z3 Real likelihoods passed through the real calculate_aic / calculate_bic (4 types) / lrt.test / '
     'p_value on 8 corpus models and compared with the documented formulas over independently counted parameters.',
     'Per-class strictness atoms (rse_theta/omega/sigma, final_zero_gradient_*) run over a contract model of the pandas '
-    'Series operations. NOT claimed: float OFVs, numpy-bound strictness atoms, calculate_bic_penalty, and all bootstrap / cdd / simeval / '
-    'shrinkage / delta-method statistics (numpy/pandas). Trusted: FakeNp/FakePd contract stubs, linear chi-square table.',
+    'Series operations. NOT claimed as a solver verdict: float OFVs, numpy-bound strictness atoms, calculate_bic_penalty, and all '
+    'bootstrap / cdd / simeval / shrinkage / delta-method statistics (numpy/pandas; a concrete companion probe, '
+    'probe:statistics, compares bootstrap, case-deletion, shrinkage and delta-method statistics on fixed synthetic '
+    'estimates with their defining formulas). Trusted: FakeNp/FakePd contract stubs, linear chi-square table.',
     'symbolic execution (CrossHair+z3) of real ranking code + z3 term equality for information criteria',
     'DESIGN.md section 3 C19', 'E1')
 
